@@ -32,7 +32,7 @@ def plan(prop, tier, seed):
     q = tier == "quick"
     if prop == "C13":
         return [{"kind": "directed", "shard": 0}] + [{"kind": "life", "n": 45 if q else 1300, "shard": i} for i in range(14 if q else 16)]
-    return [{"kind": "pure", "n": 28 if q else 950, "shard": i} for i in range(15 if q else 16)]
+    return [{"kind": "pure", "n": 28 if q else 500, "shard": i} for i in range(15 if q else 16)]
 
 
 def rand_cache(rng, data=True):
